@@ -80,6 +80,12 @@ fn prog_cfg(which: Which, variant: u64) -> ProgCfg {
 }
 
 pub fn strategy_for(rng: &mut Rng, k: u64) -> Strategy {
+    if k % 8 == 7 {
+        return Strategy::Starve {
+            victim: rng.usize_below(2),
+            burst: 1 + rng.below(4) as u32,
+        };
+    }
     match k % 4 {
         0 | 1 => Strategy::Rw,
         _ => Strategy::Pct {
@@ -100,6 +106,12 @@ fn parse_strategy(s: &str) -> Strategy {
         .filter(|x| !x.is_empty())
         .filter_map(|x| x.parse().ok())
         .collect();
+    if s.starts_with("starve") && nums.len() >= 2 {
+        return Strategy::Starve {
+            victim: nums[0] as usize,
+            burst: nums[1],
+        };
+    }
     if s.starts_with("pct") && nums.len() >= 2 {
         Strategy::Pct {
             depth: nums[0],
@@ -309,7 +321,13 @@ pub fn level_into(which: Which, rep: &mut Report) {
             for k in 0..per_prog {
                 let strat = strategy_for(&mut rng, k);
                 let sseed = rng.next_u64();
-                *strat_count.entry(if matches!(strat, Strategy::Rw) { "rw" } else { "pct" }).or_default() += 1;
+                *strat_count
+                    .entry(match strat {
+                        Strategy::Rw => "rw",
+                        Strategy::Starve { .. } => "starve",
+                        _ => "pct",
+                    })
+                    .or_default() += 1;
                 let (ex, rv) = run_one(which, &prog, strat.clone(), sseed, &mut cov);
                 handle(ex, rv, pi, &strat, sseed, &mut part, &mut lst, &mut ast);
             }
@@ -1043,7 +1061,7 @@ pub fn run_c14(tier: Tier, seed: u64) -> i32 {
                 _ => Uuid::from_u128(rng.next_u64() as u128 | ((rng.next_u64() as u128) << 64)),
             };
             let k = rng.range(2, 4) as usize;
-            let n = rng.range(1, 5) as usize;
+            let n = rng.range(1, 6) as usize;
             crate::hook::install();
             // the generator is created by whichever worker gets there first, so the creating
             // thread is one of the contenders (every other program: created by the harness thread)
@@ -1065,7 +1083,14 @@ pub fn run_c14(tier: Tier, seed: u64) -> i32 {
                     }
                 }));
             }
-            let strat = strategy_for(&mut rng, pi);
+            let strat = if pi % 4 == 3 {
+                Strategy::Starve {
+                    victim: rng.usize_below(k),
+                    burst: 1 + rng.below(3) as u32,
+                }
+            } else {
+                strategy_for(&mut rng, pi)
+            };
             let sseed = rng.next_u64();
             let exec = sched::run_exec(bodies, strat.clone(), sseed, 5_000, false, &mut |_| {});
             part.evaluations += 1;
